@@ -3,7 +3,7 @@ Line-protocol driver for C17 (runs the hand-written model on the inputs the Go h
 
   CONST                                                   -> txGas txGasContractCreation zeroGas nonZeroGas txValidatorGas txValCreationGas halfN
   RESET netId version stakingAddr pool used rewards       -> ok          (new block: empty world, refund 0)
-  ACC addr nonce balance                                  -> ok          (set an account)
+  ACC addr nonce balance code01                           -> ok          (set an account; code01 = has code)
   GET addr                                                -> nonce balance
   PRE netId nonce price gas to value data                 -> hex of the signing preimage
   HASH netId nonce price gas to value data                -> hex of keccak256(preimage)
@@ -82,9 +82,10 @@ def step (d : DS) (line : String) : DS × String :=
     | some n, some v, some s, some p, some u, some r =>
       ({ netId := n, version := v, staking := s, st := { world := {}, pool := p }, acc := { used := u, rewards := r } }, "ok")
     | _, _, _, _, _, _ => (d, "bad-op")
-  | ["ACC", addr, nonce, bal] =>
+  | ["ACC", addr, nonce, bal, code] =>
     match bytesOfHex? addr, nat? nonce, int? bal with
-    | some a, some n, some b => ({ d with st := { d.st with world := d.st.world.set a { nonce := n, balance := b } } }, "ok")
+    | some a, some n, some b =>
+      ({ d with st := { d.st with world := d.st.world.set a { nonce := n, balance := b, hasCode := code == "1" } } }, "ok")
     | _, _, _ => (d, "bad-op")
   | ["GET", addr] =>
     match bytesOfHex? addr with
